@@ -289,11 +289,13 @@ func (s *vfSM) checkIter(vs *[]*vfViol, stopAfter int) {
 			ok, boundary := s.served(e, now)
 			kh, _ := s.c.keyToHash(k)
 			if ok && !boundary && !seen[e.tok] && !s.tainted[k] && imk[kh] == e.tok { // (the map really holds it)
-				owner := "C13"
+				// "IterValues visits each unexpired resident value exactly once" (C13); when the entry carries a TTL that
+				// has not elapsed, the TTL hid it before its instant as well (C07)
+				v := vfV("C13", "iter-missed-resident", "IterValues did not visit resident unexpired value %d (key %d)", e.tok, k)
 				if !e.exp.IsZero() {
-					owner = "C07"
+					v.Also = "C07"
 				}
-				s.add(vs, vfV(owner, "iter-missed-resident", "IterValues did not visit resident unexpired value %d (key %d)", e.tok, k))
+				s.add(vs, v)
 			}
 		}
 	}
